@@ -3,6 +3,7 @@ package buildsim
 import (
 	"fmt"
 	"os"
+	"syscall"
 	"path/filepath"
 	"sort"
 	"strings"
@@ -365,6 +366,11 @@ func runC12(t *testing.T, tp *simrt.Tape, keepTrace bool) hx.Result {
 		}
 		res.Offered["fail-"+o.Name]++
 		exec(simos.Plan{FailAt: o.K}, "fail", o.K, o)
+		if o.Name == "write" || o.Name == "createtemp" {
+			// the disk fills up: from this operation on nothing can be created or written (ENOSPC)
+			res.Offered["disk-full"]++
+			exec(simos.Plan{FailFrom: o.K, FailKinds: simos.DiskFull, FailErr: syscall.ENOSPC}, "fail", o.K, o)
+		}
 	}
 	// kill after everything (= no kill) must give new
 	res.Sample = map[string]any{"scenario": sc.String(), "ops": relOps(ops, refDir), "executions": res.Evals}
